@@ -117,6 +117,7 @@ class Checker:
 
 
 SLOW = [0]
+UNEXP = [0]
 
 
 def _call(f, *a, **k):
@@ -129,6 +130,9 @@ def _call(f, *a, **k):
         return None
     except TimeoutHit:
         SLOW[0] += 1
+        return None
+    except Exception:
+        UNEXP[0] += 1          # undocumented exception type: counted in the evidence, the call yields no value to check
         return None
 
 
@@ -214,6 +218,10 @@ def t_mpc(task):
     acc = Acc(); ck = Checker(acc)
     V = [t for t in operands(th) if small(t) and t[2] + t[3] < 12][::2] + [finf, fnan]
     Z = [(a, b) for a in V[::3] for b in V[1::4]]
+    # special-valued parts paired with ordinary ones in both positions (tags of inf/nan/zero live in the exponent field)
+    for sp in (finf, fninf, fnan, fzero):
+        for x in (V[1], V[4], V[9], fzero, finf):
+            Z.append((sp, x)); Z.append((x, sp))
     for z in Z:
         for name in MPC1:
             f = getattr(L, name, None)
@@ -236,7 +244,7 @@ def t_mpc(task):
     for z in Z[::5]:
         for w in Z[::7]:
             for name in MPC2:
-                if name == 'mpc_pow' and max(c_[2] + c_[3] for c_ in z + w if c_[1]) > 5:
+                if name == 'mpc_pow' and max((c_[2] + c_[3] for c_ in z + w if c_[1]), default=0) > 5:
                     continue
                 for r in (RND if name != 'mpc_pow' else ('n',)):
                     ck.any(_call(getattr(L, name), z, w, p, r), ['mpc2', name, z, w, p, r])
@@ -267,7 +275,7 @@ def t_mpi(task):
     for x in I[::3]:
         for y in I[::5]:
             for name in MPI2:
-                if name == 'mpi_pow' and max(c_[2] + c_[3] for c_ in x + y if c_[1]) > 4:
+                if name == 'mpi_pow' and max((c_[2] + c_[3] for c_ in x + y if c_[1]), default=0) > 4:
                     continue
                 ck.any(_call(getattr(L, name), x, y, p), ['mpi2', name, x, y, p])
     acc.sample(['mpi2', 'mpi_mul', I[3], I[11], p])
@@ -388,9 +396,10 @@ def t_fun(task):
 
 
 def run_task(task):
-    SLOW[0] = 0
+    SLOW[0] = 0; UNEXP[0] = 0
     acc = globals()['t_' + task[0]](task)
     acc.count('skipped_slow_calls', SLOW[0])
+    acc.count('calls_raising_undocumented_exception', UNEXP[0])
     return acc
 
 
